@@ -22,7 +22,7 @@ VERIF = os.path.dirname(os.path.dirname(os.path.abspath(__file__)))
 REPO = os.environ.get("VERIF_REPO", "/repo")
 SPEC = os.path.join(VERIF, "spec")
 BUILD = os.path.join(VERIF, ".build")
-EVID = os.path.join(VERIF, "evidence")
+EVID = os.environ.get("VERIF_EVIDENCE_DIR") or os.path.join(VERIF, "evidence")
 REPLAYS = os.path.join(EVID, "replays")
 FINDINGS = os.path.join(VERIF, "known_findings.jsonl")
 NCPU = min(16, os.cpu_count() or 4)
@@ -318,3 +318,43 @@ def setup_repo_imports():
         sys.path.insert(0, REPO)
     from harness import build
     build.install_specpart()
+
+
+def run_forked(func, *args, timeout=3600):
+    """Run func(*args) in a forked child so that a native crash (heap corruption, segfault) in the code under
+    test is reported as an outcome instead of killing the checker. Returns ("ok", value) | ("crash", description)."""
+    import multiprocessing as mp
+    import pickle
+    ctxmp = mp.get_context("fork")
+    rd, wr = ctxmp.Pipe(duplex=False)
+
+    def child():
+        try:
+            val = func(*args)
+            wr.send_bytes(pickle.dumps(("ok", val)))
+        except BaseException as ex:  # noqa
+            import traceback
+            wr.send_bytes(pickle.dumps(("exc", "%s: %s\n%s" % (type(ex).__name__, ex, traceback.format_exc()[-2000:]))))
+        finally:
+            wr.close()
+            os._exit(0)
+
+    p = ctxmp.Process(target=child)
+    p.start()
+    wr.close()
+    data = None
+    try:
+        if rd.poll(timeout):
+            data = rd.recv_bytes()
+    except (EOFError, OSError):
+        data = None
+    p.join(30)
+    if p.is_alive():
+        p.kill()
+        return ("crash", "timeout")
+    if data is None:
+        return ("crash", "child died with exit code %s (negative = signal)" % p.exitcode)
+    kind, val = pickle.loads(data)
+    if kind == "exc":
+        raise MachineryError("forked task raised: " + val)
+    return ("ok", val)
